@@ -12,11 +12,11 @@
 (*          input wherever they are defined (so two schedules never        *)
 (*          disagree at an instant both cover)                             *)
 (***************************************************************************)
-EXTENDS DenseOn, SequencesExt, TLC
-CONSTANTS Formulas, MaxT, MaxN, Vals, Dev, SS,
+EXTENDS DenseOn, SequencesExt, Json, TLC
+CONSTANTS Formulas, MaxT, MaxN, Vals, Dev, SS, DoPrint,
           Sems, IOs      \* semantics and IO classes explored (interface-aware variants, property C06)
-VARIABLES phi, W, pos, M, emitted, err, md
-vars == <<phi, W, pos, M, emitted, err, md>>
+VARIABLES phi, W, pos, M, emitted, err, md, hist
+vars == <<phi, W, pos, M, emitted, err, md, hist>>
 
 SigOf(S, e, vs) == LET ts == <<0>> \o SetToSortSeq(S, <) \o <<e>> IN [i \in 1..Len(ts) |-> <<ts[i], vs[i]>>]
 Signals(e) == UNION {{SigOf(S, e, vs) : vs \in [1..(Cardinality(S) + 2) -> Vals]} :
@@ -27,6 +27,7 @@ Init == /\ phi \in Formulas
         /\ pos = [v \in VarsOf(phi) |-> 0]
         /\ M = InitMemC(phi) /\ emitted = <<>> /\ err = FALSE
         /\ \E sm \in Sems : \E io \in [VarsOf(phi) -> IOs] : md = [sem |-> sm, io |-> io]
+        /\ hist = <<>>
 
 Next ==
   /\ ~err
@@ -37,10 +38,14 @@ Next ==
               r == UpdateCM(phi, M, batch, SS, Dev, md) IN
           /\ err' = r.err /\ M' = r.M /\ emitted' = emitted \o r.ret
           /\ pos' = [v \in VarsOf(phi) |-> pos[v] + k[v]]
+          /\ hist' = IF DoPrint THEN Append(hist, batch) ELSE hist
   /\ UNCHANGED <<phi, W, md>>
 Spec == Init /\ [][Next]_vars
 
 NoErr == ~err
 Mono == Monotone(emitted)
 Agree == err \/ AgreesWithFM(emitted, phi, W, VarsOf(phi), SS, md)
+\* always true: prints a finished behaviour (formula, semantics, the batches of every update) for replay on the real monitor
+EmitBeh == (DoPrint /\ \A v \in VarsOf(phi) : pos[v] = Len(W[v])) =>
+             PrintT("BEHAVIOUR " \o ToJson([phi |-> phi, md |-> md, hist |-> hist]))
 =============================================================================
